@@ -123,26 +123,49 @@ pub struct Eng {
     pub db: Option<Database>,
     pub sessions: BTreeMap<u32, Session>,
     pub cfg: Cfg,
+    /// E5b: every call goes through the wire protocol and the server's request loop instead
+    pub served: Option<parking_lot::Mutex<crate::served::Served>>,
 }
 
 impl Eng {
     pub fn create(dir: &Path, cfg: Cfg) -> Result<Eng, String> {
         let db = Database::create(dir.join(DB_FILE), cfg.to_db()).map_err(|e| e.to_string())?;
-        Ok(Eng { dir: dir.to_path_buf(), db: Some(db), sessions: BTreeMap::new(), cfg })
+        Ok(Eng { dir: dir.to_path_buf(), db: Some(db), sessions: BTreeMap::new(), cfg, served: None })
+    }
+    pub fn create_served(dir: &Path, cfg: Cfg, scfg: crate::served::ServedCfg) -> Result<Eng, String> {
+        let s = crate::served::Served::create(dir, DB_FILE, cfg, scfg)?;
+        Ok(Eng { dir: dir.to_path_buf(), db: None, sessions: BTreeMap::new(), cfg, served: Some(parking_lot::Mutex::new(s)) })
+    }
+    /// first wire-level anomaly seen by the served transport, if any
+    pub fn wire_fault(&self) -> Option<String> {
+        self.served.as_ref().and_then(|s| s.lock().wire_fault.clone())
+    }
+    pub fn served_stats(&self) -> BTreeMap<String, u64> {
+        self.served.as_ref().map(|s| s.lock().stats.clone()).unwrap_or_default()
+    }
+    pub fn with_db<T>(&self, f: impl FnOnce(&Database) -> T) -> T {
+        match &self.served {
+            Some(s) => s.lock().with_db(|d| f(d.expect("db open"))),
+            None => f(self.db()),
+        }
     }
     pub fn open(dir: &Path, cfg: Cfg) -> Result<Eng, String> {
         let db = Database::open(dir.join(DB_FILE), cfg.to_db()).map_err(|e| e.to_string())?;
-        Ok(Eng { dir: dir.to_path_buf(), db: Some(db), sessions: BTreeMap::new(), cfg })
+        Ok(Eng { dir: dir.to_path_buf(), db: Some(db), sessions: BTreeMap::new(), cfg, served: None })
     }
     pub fn db(&self) -> &Database {
         self.db.as_ref().expect("db open")
     }
     pub fn exec(&self, sql: &str) -> Out {
+        if let Some(sv) = &self.served {
+            return sv.lock().exec(sql);
+        }
         norm(self.db().execute(sql).map_err(|e| e.to_string()))
     }
     pub fn batch(&self, sqls: &[String]) -> Result<Vec<Out>, Out> {
         let refs: Vec<&str> = sqls.iter().map(|s| s.as_str()).collect();
-        match self.db().execute_batch(&refs) {
+        // (the protocol has no batch request: in served mode a batch goes to the handle directly)
+        match self.with_db(|d| d.execute_batch(&refs)) {
             Ok(v) => Ok(v.into_iter().map(|r| norm(Ok(r))).collect()),
             Err(e) => {
                 let m = e.to_string();
@@ -151,6 +174,9 @@ impl Eng {
         }
     }
     pub fn begin(&mut self, s: u32) -> Out {
+        if let Some(sv) = &self.served {
+            return sv.lock().begin(s);
+        }
         match self.db().session() {
             Ok(sess) => {
                 self.sessions.insert(s, sess);
@@ -163,12 +189,18 @@ impl Eng {
         }
     }
     pub fn sexec(&mut self, s: u32, sql: &str) -> Out {
+        if let Some(sv) = &self.served {
+            return sv.lock().sexec(s, sql);
+        }
         match self.sessions.get_mut(&s) {
             Some(sess) => norm(sess.execute(sql).map_err(|e| e.to_string())),
             None => Out::Err(ErrClass::Other, "no such session".into()),
         }
     }
     pub fn commit(&mut self, s: u32) -> Out {
+        if let Some(sv) = &self.served {
+            return sv.lock().commit(s);
+        }
         match self.sessions.remove(&s) {
             Some(mut sess) => match sess.commit_transaction() {
                 Ok(()) => Out::Ok,
@@ -181,6 +213,9 @@ impl Eng {
         }
     }
     pub fn abort(&mut self, s: u32) -> Out {
+        if let Some(sv) = &self.served {
+            return sv.lock().abort(s);
+        }
         match self.sessions.remove(&s) {
             Some(mut sess) => match sess.abort_transaction() {
                 Ok(()) => Out::Ok,
@@ -193,9 +228,15 @@ impl Eng {
         }
     }
     pub fn drop_session(&mut self, s: u32) {
+        if let Some(sv) = &self.served {
+            return sv.lock().drop_session(s);
+        }
         self.sessions.remove(&s);
     }
     pub fn vacuum(&self) -> Out {
+        if let Some(sv) = &self.served {
+            return sv.lock().vacuum();
+        }
         match self.db().vacuum() {
             Ok(st) => Out::Count(st.total_freed() as u64),
             Err(e) => {
@@ -205,6 +246,9 @@ impl Eng {
         }
     }
     pub fn analyze(&self) -> Out {
+        if let Some(sv) = &self.served {
+            return sv.lock().analyze();
+        }
         match self.db().analyze(1.0, 10000) {
             Ok(()) => Out::Ok,
             Err(e) => {
@@ -214,7 +258,7 @@ impl Eng {
         }
     }
     pub fn flush(&self) -> Out {
-        match self.db().flush() {
+        match self.with_db(|d| d.flush()) {
             Ok(()) => Out::Ok,
             Err(e) => {
                 let m = e.to_string();
@@ -224,16 +268,25 @@ impl Eng {
     }
     /// (hits, misses, evictions) of the page cache (reach probe).
     pub fn cache_stats(&self) -> (u64, u64, u64) {
+        if self.served.is_some() {
+            return self.with_db(axmosdb::verif::facade::probe::cache_stats);
+        }
         match &self.db {
             Some(d) => axmosdb::verif::facade::probe::cache_stats(d),
             None => (0, 0, 0),
         }
     }
     pub fn explain(&self, sql: &str) -> Result<String, String> {
+        if let Some(sv) = &self.served {
+            return sv.lock().explain(sql);
+        }
         self.db().explain(sql).map_err(|e| e.to_string())
     }
     /// Clean close (sessions dropped first, then the handle) and reopen.
     pub fn reopen(&mut self, cfg: Cfg) -> Out {
+        if let Some(sv) = &self.served {
+            return sv.lock().reopen();
+        }
         self.sessions.clear();
         drop(self.db.take());
         match Database::open(self.dir.join(DB_FILE), cfg.to_db()) {
@@ -249,6 +302,9 @@ impl Eng {
         }
     }
     pub fn close(&mut self) {
+        if let Some(sv) = &self.served {
+            return sv.lock().close();
+        }
         self.sessions.clear();
         drop(self.db.take());
     }
